@@ -1251,7 +1251,11 @@ class xfunc_op_base(xfunc):
     def reduce(self, cube, regions):
         """Return `regions` reduced to proper output."""
         output_values, output_validity = regions
-        output_values[~output_validity] = self.null
+        # Convert the null value the way get_initial_regions does
+        # (NaN becomes NaT for datetimes; plain assignment refuses that).
+        output_values[~output_validity] = numpy.full(
+            (), self.null, dtype=output_values.dtype
+        )
 
         if isinstance(self.return_missing_as, tuple):
             return output_values, output_validity
